@@ -408,7 +408,11 @@ func TestVerif_C07_States(t *testing.T) {
 				}
 				probed[pk]++
 			}
+			before := rep.Evaluations
 			c07ReplayStates(t, rep, w, b, key, bi, probes)
+			if rep.Evaluations == before {
+				rep.Eval("", nil) // replayed (and diverged before the behaviour was counted)
+			}
 		}()
 	}
 }
